@@ -108,6 +108,15 @@ public:
         return m_stack[--m_numObjectsOnStack];
     }
 
+#if defined(APACHE_XALAN_C_VERIF)
+    // verification hook H1: number of objects handed out and not yet released
+    typename VectorType::size_type
+    verifInUse() const
+    {
+        return m_numObjectsOnStack;
+    }
+#endif
+
     void
     reset()
     {
